@@ -320,7 +320,8 @@ def strategy_dataset(tier):
         "fmt": st.sampled_from(["fb", "fb", "fb", "npz", "tfrec"]),
         "comp_idx": st.integers(0, 6),
         "eps": st.integers(1, 4),
-        "s": st.integers(6, 14),
+        "s": st.one_of(st.integers(6, 14), st.integers(1, 3)),
+        "shards_k": st.sampled_from([None, None, None, 1, 2]),
         "mult": st.sampled_from([1, 4]),
         "iface": st.integers(0, 9),
         "shuffle": st.sampled_from([0, 0, 1, 3, 10]),
@@ -365,21 +366,21 @@ def run_dataset(case, ctx):
         dsops.filler_session(ds, desc, [["train", list(range(s * eps)), None]])
         k, shuffle, fp = case["k"], case["shuffle"], case["fp"]
         opts = {"shuffle": shuffle}  # repeat=True is the default
+        if case.get("shards_k"):
+            opts["shards"] = case["shards_k"]
         if dsops.iface_accepts(iface, "file_parallelism"):
             opts["file_parallelism"] = fp
         if iface == "tfdata" and case.get("fp_none"):
             # documented as allowed: file_parallelism: int | None
             opts["file_parallelism"] = None
-            tfds = ds.as_tfdataset("train", batch_size=0, shuffle=shuffle,
-                                   file_parallelism=None)
-            del tfds
             fp = 1 if fmt != "tfrec" else (os.cpu_count() or 1)
         mon = openmon.OpenMonitor([root / "ds"])
         try:
             if iface == "tfdata" and case.get("fp_none"):
                 it = iter(ds.as_tfdataset("train", batch_size=0,
                                           shuffle=shuffle,
-                                          file_parallelism=None
+                                          file_parallelism=None,
+                                          shards=case.get("shards_k")
                                           ).as_numpy_iterator())
                 got = [next(it) for _ in range(k)]
                 del it
